@@ -31,9 +31,16 @@ ASSUMPTIONS = OutHost.CONTRACT + [
     "a CRC-valid packet addressed to the endpoint must be kept when at least max_packet_size bytes were free when "
     "its token arrived (the class's documented criterion); otherwise it may be kept or dropped, as a whole",
 ]
-BOUNDS = "BMC from reset; (mps, buffer) = (2,4) [class default 2*mps], (2,3); thorough adds (3,6); all host / " \
-         "consumer schedules up to K cycles (3-4 packets); tracked packet index j symbolic"
+BOUNDS = "BMC from reset; (mps, buffer) = (2,3) quick; thorough adds (2,4) [class default 2*mps] and (3,6); all host / " \
+         "consumer schedules up to K cycles (quick 20, thorough 22: 3 packets); tracked packet index j symbolic"
 OUTSIDE = "histories longer than K cycles; packets longer than max_packet_size; byte-level framing/CRC (C02)"
+
+# FINDINGS (genuine defect found by this check on the original tree, fixed in /repo):
+#   "fix: decide once per packet whether an isochronous OUT packet fits"
+#       sufficient_space was re-evaluated for every byte while the packet's own uncommitted writes shrank the space:
+#       a packet arriving with exactly buffer-mps bytes occupied was truncated yet committed.
+#       Caught by: truncated, lost (and, depending on the schedule, order / framing / interleaved); configurations
+#       (2,4) and (2,3), K <= 16.  The mutation `packet_fits = sufficient_space` re-introduces it.
 
 EP = 1
 
@@ -178,17 +185,28 @@ class IsoOutHarness(Harness):
         return m
 
 
+# assertion families (one solver process each in the quick tier)
+FAM_WHOLE = ["framing", "foreign", "order", "interleaved", "truncated", "lost", "handshake"]
+FAM_CONTENT = ["data", "first_mark", "last_mark"]
+
+
 def queries(tier):
     qs = []
     quick = tier == "quick"
-    cfgs = [("m2b4", 2, 4), ("m2b3", 2, 3)] if quick else [("m2b4", 2, 4), ("m2b3", 2, 3), ("m3b6", 3, 6)]
+    # quick: the small-buffer configuration, where a whole-packet drop (cover dropped_whole) is reachable within K
+    cfgs = [("m2b3", 2, 3)] if quick else [("m2b3", 2, 3), ("m2b4", 2, 4), ("m3b6", 3, 6)]
     for tag, mps, buf in cfgs:
         f = (lambda mps=mps, buf=buf: IsoOutHarness(mps, buf))
         K = 20 if quick else 22
         # a whole-packet drop needs a full buffer: within K only reachable with the small buffer (m2b3)
         covers = None if buf < 2 * mps else [c for c in IsoOutHarness(mps, buf)._covers if c != "dropped_whole"]
-        qs.append(Query(f"bmc_{tag}", f, K, timeout=900, covers=covers,
-                        desc=f"mps={mps} buffer={buf}: host schedule, data (upper 6 bits), consumer ready all free"))
-        if tag == "m2b4" or not quick:
-            qs.append(Query(f"cosim_{tag}", f, 0, kind="cosim", cosim_cycles=100 if quick else 600))
+        d = f"mps={mps} buffer={buf}: host schedule, data (upper 6 bits), consumer ready all free"
+        if quick:
+            qs.append(Query(f"bmc_whole_{tag}", f, K, timeout=600, asserts=FAM_WHOLE, covers=covers, split=False,
+                            desc=d + " -- whole-or-nothing / framing family + all covers"))
+            qs.append(Query(f"bmc_content_{tag}", f, K, timeout=600, asserts=FAM_CONTENT, covers=[], split=False,
+                            desc=d + " -- payload and first/last marks of the tracked packet"))
+        else:
+            qs.append(Query(f"bmc_{tag}", f, K, timeout=900, covers=covers, desc=d))
+        qs.append(Query(f"cosim_{tag}", f, 0, kind="cosim", cosim_cycles=100 if quick else 600))
     return qs
